@@ -45,6 +45,15 @@ fn main() {
                 }
             }
             let seed = std::env::var("VERIF_SEED").ok().and_then(|s| s.parse::<u64>().ok()).unwrap_or(0);
+            if std::env::var("WFV_INNER").is_err() && std::env::var("WFV_NO_SUPERVISOR").is_err() {
+                std::process::exit(supervise(&id, tier, seed, &args[1..]));
+            }
+            if std::env::var("WFV_INNER").is_ok() {
+                // do not outlive the supervisor
+                unsafe {
+                    libc::prctl(libc::PR_SET_PDEATHSIG, libc::SIGKILL);
+                }
+            }
             ev::quiet_panics();
             match checks::run(&id, tier, seed) {
                 Some(c) => c,
@@ -71,4 +80,49 @@ fn main() {
         }
     };
     std::process::exit(code);
+}
+
+/// Runs the check in a child process so that a crash of the process while it drives
+/// cloudflare/wirefilter (stack overflow, a panic crossing an `extern "C"` boundary, a panic while
+/// panicking, an explicit abort) is reported as what it is - the code under test crashing on an
+/// in-bounds input - instead of as a failure of the machinery. Anything else is passed through.
+fn supervise(id: &str, tier: Tier, seed: u64, args: &[String]) -> i32 {
+    use std::os::unix::process::ExitStatusExt;
+    let exe = std::env::current_exe().expect("exe");
+    let st = match std::process::Command::new(exe).args(args).env("WFV_INNER", "1").status() {
+        Ok(st) => st,
+        Err(e) => {
+            eprintln!("MACHINERY-FAILURE: cannot start the checking process: {e}");
+            return 2;
+        }
+    };
+    if let Some(c) = st.code() {
+        return c;
+    }
+    let sig = st.signal().unwrap_or(0);
+    // SIGILL 4, SIGABRT 6, SIGBUS 7, SIGFPE 8, SIGSEGV 11: raised by the process itself
+    if ![4, 6, 7, 8, 11].contains(&sig) {
+        eprintln!("MACHINERY-FAILURE: the checking process was killed by signal {sig} (not raised by the code under test)");
+        return 2;
+    }
+    let key = format!("{id}:process-crash:signal={sig}");
+    let what = format!(
+        "the process died with signal {sig} while check {id} was driving cloudflare/wirefilter (a stack overflow, a panic that crossed an extern \"C\" boundary, a panic while panicking or an explicit abort): no property is met by crashing; see the lines printed just above for the runtime's own message"
+    );
+    if ev::load_known_findings(id).iter().any(|k| k == &key) {
+        println!("KNOWN-FINDING: property={id} {key} ({what})");
+        return 0;
+    }
+    let dir = ev::verif_dir().join("replays").join(id);
+    let _ = std::fs::create_dir_all(&dir);
+    let path = dir.join(format!("{}_{}_crash.json", tier.name(), seed));
+    let doc = serde_json::json!({
+        "property": id, "tier": tier.name(), "seed": seed, "key": key, "what": what,
+        "case": {"kind": "process-crash", "signal": sig},
+        "replay": format!("./run.sh replay {}", path.display()),
+    });
+    let _ = std::fs::write(&path, serde_json::to_string_pretty(&doc).unwrap());
+    println!("VIOLATION property={id} replay={}", path.display());
+    eprintln!("  -> {key}: {what}");
+    1
 }
